@@ -53,6 +53,9 @@ Inductive theta :=
 | TEval (pv : Z) (t : Z)                    (* eval-mode (arg-max) sample of the parameters of version pv (MPS) *)
 | TGumbel (pv : Z) (r : Z) (h : bool) (t : Z).   (* Gumbel sample of parameters pv drawn at RNG position r *)
 
+(* which parameters are trainable (requires_grad): as built | train_net_and_nas | train_nas_only | train_net_only *)
+Inductive tmode := TBuilt | TAll | TNas | TNet.
+
 Record state := mkSt {
   pv : Z;                (* version of the parameters (weights and NAS parameters) *)
   bv : Z;                (* version of the BatchNorm running statistics *)
@@ -62,16 +65,18 @@ Record state := mkSt {
   tr_sub : bool;         (* .training of the modules in S (user code may freeze / unfreeze them: module.eval()) *)
   th : theta;
   opt : sopt;            (* current sampling options *)
+  trn : tmode;           (* requires_grad of the parameters (also of the layers shared with the user's model) *)
   rng : Z;               (* position of torch's global random stream *)
   spec : specid;         (* current cost specification *)
   polluted : bool }.     (* some plain layer's __dict__ carries the shape keys written by a cost call *)
 
 (* the part of the state the property speaks about (everything but [polluted]) *)
-Definition visible (s : state) := (pv s, bv s, (tr_wrap s, tr_seed s, tr_leaf s, tr_sub s), th s, opt s, rng s, spec s).
+Definition visible (s : state) := (pv s, bv s, (tr_wrap s, tr_seed s, tr_leaf s, tr_sub s), th s, opt s, trn s, rng s, spec s).
 
 Inductive oop := OExport | OExportNoBn | OSummary | OCost | OGetCost (n : string)
                | OSetSpec (s : specid) | OForward | OTrainStep | OFlip
-               | OSetOpt (d h g : option bool) (t : option Z).
+               | OSetOpt (d h g : option bool) (t : option Z)
+               | OSetTrain (m : tmode).
 Definition is_observer (o : oop) : bool :=
   match o with OExport | OExportNoBn | OSummary | OCost | OGetCost _ => true | _ => false end.
 
@@ -109,7 +114,7 @@ Definition resample (c : config) (train : bool) (s : state) : theta * Z :=
   end.
 
 Definition set_th_rng (s : state) (t : theta) (r : Z) : state :=
-  mkSt (pv s) (bv s) (tr_wrap s) (tr_seed s) (tr_leaf s) (tr_sub s) t (opt s) r (spec s) (polluted s).
+  mkSt (pv s) (bv s) (tr_wrap s) (tr_seed s) (tr_leaf s) (tr_sub s) t (opt s) (trn s) r (spec s) (polluted s).
 
 (* forward of the wrapper = forward of the seed *)
 Definition forward (c : config) (s : state) : state * obs :=
@@ -117,7 +122,7 @@ Definition forward (c : config) (s : state) : state * obs :=
   let r1 := snd (resample c (samp_flag c s) s) in
   let r2 := if drop_flag c s && has_drop c then r1 + w_drop else r1 in
   let b2 := if bn_flag c s && has_bn c then bv s + 1 else bv s in
-  (mkSt (pv s) b2 (tr_wrap s) (tr_seed s) (tr_leaf s) (tr_sub s) t (opt s) r2 (spec s) (polluted s),
+  (mkSt (pv s) b2 (tr_wrap s) (tr_seed s) (tr_leaf s) (tr_sub s) t (opt s) (trn s) r2 (spec s) (polluted s),
    OOut (pv s) (bv s) t (tr_leaf s) (tr_sub s) r1).
 
 (* convert(seed, example, 'export'): trace(seed.eval()), ShapeProp forward, new layers *)
@@ -129,13 +134,13 @@ Definition export (v : version) (c : config) (s : state) : state * obs :=
   let o2 := if keep_options v then opt s
             else match meth c with MPS => mkOpt false (o_hard (opt s)) (o_gumbel (opt s)) (o_temp (opt s)) | _ => opt s end in
   match restore_state v with
-  | RAll => (mkSt (pv s) (bv s) (tr_wrap s) (tr_seed s) (tr_leaf s) (tr_sub s) (th s) o2 (rng s + r_build) (spec s) (polluted s), o)
+  | RAll => (mkSt (pv s) (bv s) (tr_wrap s) (tr_seed s) (tr_leaf s) (tr_sub s) (th s) o2 (trn s) (rng s + r_build) (spec s) (polluted s), o)
   | RMode =>                                  (* self.train(self.training): every module gets the wrapper's flag *)
-    (mkSt (pv s) (bv s) (tr_wrap s) (tr_wrap s) (tr_wrap s) (tr_wrap s) (th s) o2 (rng s + r_build) (spec s) (polluted s), o)
+    (mkSt (pv s) (bv s) (tr_wrap s) (tr_wrap s) (tr_wrap s) (tr_wrap s) (th s) o2 (trn s) (rng s + r_build) (spec s) (polluted s), o)
   | RNo =>
     let t := fst (resample c false s) in      (* eval-mode forward of shape propagation *)
     let r1 := snd (resample c false s) in
-    (mkSt (pv s) (bv s) (tr_wrap s) false false false t o2 (r1 + r_build) (spec s) (polluted s), o)
+    (mkSt (pv s) (bv s) (tr_wrap s) false false false t o2 (trn s) (r1 + r_build) (spec s) (polluted s), o)
   end.
 
 Definition summary (v : version) (c : config) (s : state) : state * obs :=
@@ -151,14 +156,14 @@ Definition summary (v : version) (c : config) (s : state) : state * obs :=
 Definition pollutes (c : config) : bool :=
   match meth c with SN => true | _ => full_cost c && has_fixed c end.
 Definition cost_of (c : config) (s : state) (m : metric) : state * obs :=
-  (mkSt (pv s) (bv s) (tr_wrap s) (tr_seed s) (tr_leaf s) (tr_sub s) (th s) (opt s) (rng s) (spec s) (polluted s || pollutes c),
+  (mkSt (pv s) (bv s) (tr_wrap s) (tr_seed s) (tr_leaf s) (tr_sub s) (th s) (opt s) (trn s) (rng s) (spec s) (polluted s || pollutes c),
    OCostV m (full_cost c) (th s) (pv s)).
 
 (* one search step: forward, loss + cost regularizer (cost / get_cost "a"), backward, update of every trainable parameter *)
 Definition train_step (c : config) (s : state) : state * obs :=
   let s1 := fst (forward c s) in
   let o := snd (forward c s) in
-  (mkSt (pv s1 + 1) (bv s1) (tr_wrap s1) (tr_seed s1) (tr_leaf s1) (tr_sub s1) (th s1) (opt s1) (rng s1) (spec s1) (polluted s1 || pollutes c), o).
+  (mkSt (pv s1 + 1) (bv s1) (tr_wrap s1) (tr_seed s1) (tr_leaf s1) (tr_sub s1) (th s1) (opt s1) (trn s1) (rng s1) (spec s1) (polluted s1 || pollutes c), o).
 
 Definition cost (c : config) (s : state) : state * obs :=
   match spec s with
@@ -174,11 +179,11 @@ Definition get_cost (c : config) (s : state) (n : string) : state * obs :=
   end.
 
 Definition set_spec (s : state) (sp : specid) : state * obs :=
-  (mkSt (pv s) (bv s) (tr_wrap s) (tr_seed s) (tr_leaf s) (tr_sub s) (th s) (opt s) (rng s) sp (polluted s), OOk).
+  (mkSt (pv s) (bv s) (tr_wrap s) (tr_seed s) (tr_leaf s) (tr_sub s) (th s) (opt s) (trn s) (rng s) sp (polluted s), OOk).
 
 (* user code flips the flag of the modules in S (module.eval() / module.train() on BatchNorm, Dropout, samplers) *)
 Definition flip (s : state) : state * obs :=
-  (mkSt (pv s) (bv s) (tr_wrap s) (tr_seed s) (tr_leaf s) (negb (tr_sub s)) (th s) (opt s) (rng s) (spec s) (polluted s), OOk).
+  (mkSt (pv s) (bv s) (tr_wrap s) (tr_seed s) (tr_leaf s) (negb (tr_sub s)) (th s) (opt s) (trn s) (rng s) (spec s) (polluted s), OOk).
 
 (* update_softmax_options(temperature, hard, gumbel, disable_sampling): options that are not given keep their value;
    SuperNet offers temperature and hard only; PIT has no samplers *)
@@ -190,7 +195,11 @@ Definition set_opt (c : config) (s : state) (d h g : option bool) (t : option Z)
             | MPS => mkOpt (ov d (o_disabled o)) (ov h (o_hard o)) (ov g (o_gumbel o)) (ov t (o_temp o))
             | SN => mkOpt (o_disabled o) (ov h (o_hard o)) (o_gumbel o) (ov t (o_temp o))
             end in
-  (mkSt (pv s) (bv s) (tr_wrap s) (tr_seed s) (tr_leaf s) (tr_sub s) (th s) o' (rng s) (spec s) (polluted s), OOk).
+  (mkSt (pv s) (bv s) (tr_wrap s) (tr_seed s) (tr_leaf s) (tr_sub s) (th s) o' (trn s) (rng s) (spec s) (polluted s), OOk).
+
+(* train_nas_only() / train_net_only() / train_net_and_nas(): requires_grad of every parameter *)
+Definition set_train (s : state) (m : tmode) : state * obs :=
+  (mkSt (pv s) (bv s) (tr_wrap s) (tr_seed s) (tr_leaf s) (tr_sub s) (th s) (opt s) m (rng s) (spec s) (polluted s), OOk).
 
 Definition step (v : version) (c : config) (s : state) (o : oop) : state * obs :=
   match o with
@@ -205,6 +214,7 @@ Definition step (v : version) (c : config) (s : state) (o : oop) : state * obs :
   | OTrainStep => train_step c s
   | OFlip => flip s
   | OSetOpt d h g t => set_opt c s d h g t
+  | OSetTrain m => set_train s m
   end.
 
 Fixpoint run (v : version) (c : config) (s : state) (ops : list oop) : state :=
@@ -226,7 +236,7 @@ Definition erase (ops : list oop) : list oop := filter (fun o => negb (is_observ
 
 (* [mixed]: the modules in S start with the flag opposite to the wrapper's *)
 Definition init (c : config) (train mixed : bool) (sp : specid) : state :=
-  mkSt 0 0 train train train (xorb train mixed) TInit (mkOpt false false (gumbel c) 1) 0 sp false.
+  mkSt 0 0 train train train (xorb train mixed) TInit (mkOpt false false (gumbel c) 1) TBuilt 0 sp false.
 
 (* correspondence helper: observation and full abstract state after every step *)
 Fixpoint run_trace_from (v : version) (c : config) (s : state) (ops : list oop) : list (obs * state) :=
@@ -236,6 +246,6 @@ Definition run_trace (v : version) (c : config) (train mixed : bool) (sp : speci
 
 (* flat encodings for the harness *)
 Definition st_tuple (s : state) := (pv s, bv s, (tr_wrap s, tr_seed s, tr_leaf s, tr_sub s), th s, rng s, spec s, polluted s,
-   (o_disabled (opt s), o_hard (opt s), o_gumbel (opt s), o_temp (opt s))).
+   (o_disabled (opt s), o_hard (opt s), o_gumbel (opt s), o_temp (opt s)), trn s).
 Definition run_trace_t (v : version) (c : config) (train mixed : bool) (sp : specid) (ops : list oop) :=
   map (fun p => (fst p, st_tuple (snd p))) (run_trace v c train mixed sp ops).
